@@ -7,6 +7,7 @@ import KoordVerif.Proofs.C19Rsv
 import KoordVerif.Proofs.C19ExtRsvCache
 import KoordVerif.Proofs.C19ExtQuota
 import KoordVerif.Proofs.C19ExtEvents
+import KoordVerif.Proofs.C19ExtBoot
 /-
 C19 — scheduler allocation state survives a restart unchanged.  Property theorems.
 
@@ -767,5 +768,109 @@ theorem quota_terminated_keeps_used_counterexample :
 example : Quota.okHist Quota.Ex.hist = true := by decide
 example : Quota.isDelivery (Quota.run {} Quota.Ex.hist) (Quota.worldAfter Quota.Ex.hist) Quota.Ex.deliv = true := by decide
 
+
+/-! ## S. start-up glue (ext2; model Model/C19Boot.lean, proofs Proofs/C19ExtBoot.lean)
+
+### S1. the reserve pod reads the Reservation object's own values
+What a (re)started scheduler reads for a Reservation is the pod built by `NewReservePod` (every Reservation informer
+handler goes through ReservationToPodEventHandler).  PreBindReservation persists resource-status / device-allocated on
+the Reservation OBJECT (tie_prebind_reservation_target); spec.template may carry other values for the same keys (a
+template copied from a running pod by the migration controller).  Key ids: Model/C19Boot.lean. -/
+
+/-- for EVERY key the adapter does not write itself, the value the Reservation object declares is the value the
+    reserve pod carries — whatever the template declares (unique keys: a Go map). -/
+theorem reserve_pod_reads_own_allocation (i : Boot.RIn) (k v : Nat) (hn : (i.own.map (·.1)).Nodup)
+    (hk : k ∉ Boot.fixedKeys) (h : (k, v) ∈ i.own) : Boot.getK (Boot.reservePodAnnots i) k = some v :=
+  Boot.reserve_pod_reads_own i k v hn hk h
+
+/-- hence the allocation decoded from the reserve pod is the allocation that was persisted: for any codec with
+    `dec (enc a) = some a` (numa: restore_persist, device: the JSON codec exercised by the harness) -/
+theorem reserve_pod_restores_persisted {α : Type} (enc : α → Nat) (dec : Nat → Option α) (a : α)
+    (hcodec : dec (enc a) = some a) (i : Boot.RIn) (k : Nat) (hn : (i.own.map (·.1)).Nodup)
+    (hk : k ∉ Boot.fixedKeys) (h : (k, enc a) ∈ i.own) :
+    (Boot.getK (Boot.reservePodAnnots i) k).bind dec = some a := by
+  rw [Boot.reserve_pod_reads_own i k (enc a) hn hk h]; exact hcodec
+
+/-- the template does not matter for a key the object declares -/
+theorem reserve_pod_independent_of_template (i : Boot.RIn) (t : Boot.AMap) (k v : Nat) (hn : (i.own.map (·.1)).Nodup)
+    (hk : k ∉ Boot.fixedKeys) (h : (k, v) ∈ i.own) :
+    Boot.getK (Boot.reservePodAnnots { i with tmpl := t }) k = Boot.getK (Boot.reservePodAnnots i) k := by
+  rw [Boot.reserve_pod_reads_own i k v hn hk h, Boot.reserve_pod_reads_own { i with tmpl := t } k v hn hk h]
+
+/-- a key only the template declares is kept (e.g. the resource spec of a Reservation declared on its template) -/
+theorem reserve_pod_template_fallback (i : Boot.RIn) (k v : Nat) (hn : (i.tmpl.map (·.1)).Nodup)
+    (hk : k ∉ Boot.fixedKeys) (ho : k ∉ i.own.map (·.1)) (h : (k, v) ∈ i.tmpl) :
+    Boot.getK (Boot.reservePodAnnots i) k = some v :=
+  Boot.reserve_pod_template_fallback i k v hn hk ho h
+
+/-- the hypotheses are satisfiable on a non-trivial input: stale resource-status 7 on the template, live 8 on the object -/
+example : Boot.getK (Boot.reservePodAnnots { tmpl := [(0, 7), (1, 5)], own := [(0, 8), (2, 9)] }) 0 = some 8 ∧
+    Boot.getK (Boot.reservePodAnnots { tmpl := [(0, 7), (1, 5)], own := [(0, 8), (2, 9)] }) 1 = some 5 := by decide
+
+/-- the merge ORDER matters: if a key of the scheduling domain (ids 0..4) that the template already declares kept the
+    template's value, the reserve pod would read the stale allocation. -/
+theorem reserve_pod_template_wins_counterexample :
+    ¬ (∀ (tmpl own : Boot.AMap) (k v : Nat), (own.map (·.1)).Nodup → (k, v) ∈ own →
+        Boot.getK (Boot.overwriteUnlessDeclared (fun k => decide (k ≤ 4)) (Boot.overwrite [] tmpl) own) k = some v) := by
+  intro h
+  have := h [(0, 7)] [(0, 8)] 0 8 (by decide) (by decide)
+  revert this
+  decide
+
+/-! ### S2. the handlers-sync barrier covers the rebuild
+Registrations R (one per informer handler that rebuilds allocation state), each with the initial list its listener
+still has to deliver; any schedule of deliveries (a pinned listener cannot move while the gate is closed); the barrier
+(`WaitForHandlersSync`) is open when every COLLECTED registration has delivered its whole list; the first scheduling
+cycle runs when the barrier is open. -/
+
+/-- S ⊇ R (every state-rebuilding registration is collected — tie_boot_registrations): in EVERY schedule, when the
+    barrier is open the delivered events are exactly (a permutation of) all initial events: the rebuild is complete
+    at the first cycle. -/
+theorem barrier_covers_rebuild (regs : List Boot.RegInfo) {ε : Type} (init : List (List ε)) (sched : List Boot.Act)
+    (hl : regs.length = init.length) (hall : ∀ r ∈ regs, r.inBarrier = true)
+    (hopen : Boot.barrierOpen regs (Boot.run regs ({ queues := init } : Boot.Cfg ε) sched) = true) :
+    ((Boot.run regs ({ queues := init } : Boot.Cfg ε) sched).log.map (·.2)).Perm init.flatten :=
+  Boot.barrier_covers regs init sched hl hall hopen
+
+/-- one registration outside S: there is a schedule in which the barrier is open while that registration's events
+    are still missing (pod listener done, Reservation listener pinned and not collected). -/
+theorem barrier_misses_uncollected_counterexample :
+    ¬ (∀ (regs : List Boot.RegInfo) (init : List (List Nat)) (sched : List Boot.Act), regs.length = init.length →
+        Boot.barrierOpen regs (Boot.run regs ({ queues := init } : Boot.Cfg Nat) sched) = true →
+        ((Boot.run regs ({ queues := init } : Boot.Cfg Nat) sched).log.map (·.2)).Perm init.flatten) := by
+  intro h
+  have := h [{ inBarrier := true, gated := false }, { inBarrier := false, gated := true }] [[1], [2]]
+    [.deliver 0, .deliver 1] rfl (by decide)
+  have hl := this.length_eq
+  revert hl
+  decide
+
+/-- deviceshare instance: with distinct (node, type, holder) keys and amounts ≥ 0, the ledger the first scheduling
+    cycle reads (used, free, allocate-set membership) is the from-scratch ledger of ALL holders — pods and Reservations,
+    in whatever order the listeners interleaved; with dev_taken_not_free nothing a holder holds is free. -/
+theorem dev_first_cycle_complete (regs : List Boot.RegInfo) (total : Dev.Tab) (init : List (List Dev.Group))
+    (sched : List Boot.Act) (hl : regs.length = init.length) (hall : ∀ r ∈ regs, r.inBarrier = true)
+    (hnd : (init.flatten.map Dev.Group.key).Nodup) (hnn : ∀ g ∈ init.flatten, g.Nonneg)
+    (hopen : Boot.barrierOpen regs (Boot.run regs ({ queues := init } : Boot.Cfg Dev.Group) sched) = true) :
+    let seen := (Boot.run regs ({ queues := init } : Boot.Cfg Dev.Group) sched).log.map (·.2)
+    (∀ k, Dev.usedAt (Dev.build total seen) k = Dev.usedAt (Dev.build total init.flatten) k) ∧
+    (∀ k, Dev.freeAt (Dev.build total seen) k = Dev.freeAt (Dev.build total init.flatten) k) ∧
+    (∀ key, Dev.recorded (Dev.build total seen).aset key = Dev.recorded (Dev.build total init.flatten).aset key) :=
+  Boot.dev_boot_complete regs total init sched hl hall hnd hnn hopen
+
+/-- the start-up order the harness drives (`bootSeen`, the function the driver runs for `dev boot`) is one of these
+    schedules: whenever it reports that the barrier opened, the first cycle has seen every initial event. -/
+theorem boot_order_complete (regs : List Boot.RegInfo) {ε : Type} (init : List (List ε))
+    (hl : regs.length = init.length) (hall : ∀ r ∈ regs, r.inBarrier = true)
+    (hopened : (Boot.bootSeen regs init).2.1 = true) : (Boot.bootSeen regs init).2.2.Perm init.flatten :=
+  Boot.bootSeen_complete regs init hl hall hopened
+
+/-- non-vacuous: with the Reservation listener pinned the barrier HOLDS, opens after the gate, and both lists are seen -/
+example : Boot.bootSeen [{ inBarrier := true, gated := false }, { inBarrier := true, gated := true }] [[1, 2], [3]]
+    = (true, true, [1, 2, 3]) := by decide
+
+/-- … and with that registration not collected the first cycle runs without the Reservation's event -/
+example : Boot.bootSeen [{ inBarrier := true, gated := false }, { inBarrier := false, gated := true }] [[1, 2], [3]]
+    = (false, true, [1, 2]) := by decide
 
 end KoordVerif.C19
